@@ -12,6 +12,7 @@ import ToastyVerif.Gen.Paths
 import ToastyVerif.Model.Pixels
 import ToastyVerif.Model.Cascade
 import ToastyVerif.Props.C14
+import ToastyVerif.Model.Stage
 
 namespace Driver
 
@@ -414,6 +415,53 @@ def handleRange (a : List String) : String :=
   | some (t, []) => " ".intercalate (allHdrs t)
   | _ => "bad-op"
 
+/-! ### hand-off stage: replay of a recorded trace -/
+
+def parseStageLabel (t : String) : Option Stage.L :=
+  match t.splitOn ":" with
+  | ["start", k] => k.toNat?.map .start
+  | ["begin", k] => k.toNat?.map .begin
+  | ["put", i] => i.toNat?.map .put
+  | ["flush"] => some .flush
+  | ["close"] => some .close
+  | ["jt"] => some .joinThread
+  | ["set"] => some .setFlag
+  | ["join", k] => k.toNat?.map .join
+  | ["fq", k, b] => k.toNat?.map (fun k => .flagQ k (b == "1"))
+  | ["rl", k] => k.toNat?.map .rlock
+  | ["rt", k] => k.toNat?.map .rlockTimeout
+  | ["rv", k, i] => match k.toNat?, i.toNat? with
+    | some k, some i => some (.recv k i)
+    | _, _ => none
+  | ["em", k] => k.toNat?.map .empty
+  | ["cb", k, i] => match k.toNat?, i.toNat? with
+    | some k, some i => some (.cb k i)
+    | _, _ => none
+  | _ => none
+
+def showPC : Stage.PC → String
+  | .starting k => s!"starting{k}" | .putting => "putting" | .closed => "closed" | .joined => "joined"
+  | .joining k => s!"joining{k}" | .returned => "returned"
+
+def replayStage (s : Stage.S) (idx : Nat) : List String → String
+  | [] =>
+    let exited := (List.range s.n).all fun k => s.ws k == .exited
+    s!"ok {showPC s.pc} exited={exited} processed={",".intercalate (s.processed.map fun e => s!"{e.1}@{e.2}")} left={s.pipe.length + s.buf.length + s.todo.length}"
+  | t :: ts =>
+    match parseStageLabel t with
+    | none => "bad-op"
+    | some l => match Stage.step s l with
+      | some s' => replayStage s' (idx + 1) ts
+      | none => s!"reject {idx} {t}"
+
+def handleStage (a : List String) : String :=
+  match a with
+  | n :: cap :: ff :: items :: labels =>
+    match n.toNat?, cap.toNat?, (if items = "-" then some [] else (items.splitOn ",").mapM String.toNat?) with
+    | some n, some cap, some its => replayStage (Stage.init n cap (ff == "1") its) 0 labels
+    | _, _, _ => "bad-op"
+  | _ => "bad-op"
+
 def handle (toks : List String) : String :=
   match toks with
   | "gen" :: op :: args => match ints args with
@@ -431,6 +479,7 @@ def handle (toks : List String) : String :=
   | "px" :: op :: args => handlePx op args
   | "casc" :: op :: args => handleCasc op args
   | "range" :: args => handleRange args
+  | "stage" :: args => handleStage args
   | _ => "bad-op"
 
 end Driver
